@@ -8,5 +8,6 @@ CONSTANTS
   LyingSources = {"w"}
   EndgameLimit = 2
   MaxStops = 2
+  MaxFaults = 1
 INVARIANT Inv
 CHECK_DEADLOCK FALSE
